@@ -529,6 +529,14 @@ class Env:
         return b
 
     def __exit__(self, *a):
+        # finalise objects of this path (FileLock.__del__ releases through the still-bound rig) invisibly
+        import gc
+        self.world.quiet += 1
+        self.world.dead.clear()
+        try:
+            gc.collect()
+        except BaseException:  # noqa
+            pass
         for mod, name, val in reversed(self.saved):
             if isinstance(mod, dict):
                 if val is _MISSING:
